@@ -310,9 +310,12 @@ def tensor_index(it, base: VTensor, idx, node):
             for term in cur.terms:
                 sp.unify(term.out[ax][0], idt.terms[0].out[0][0], "gather index")
             ax += 1
-        elif isinstance(x, VOpaque) and x.tag.startswith("userslice"):
-            cur = net.select_axis(sp, cur, ax, x.tag, P.atom(f"|{x.tag}|"))
+        elif isinstance(x, VOpaque) and x.tag.startswith("userslice:"):
+            nm = x.tag.split(":", 1)[1]
+            cur = net.select_axis(sp, cur, ax, nm, P.atom(f"|{nm}|"))
             ax += 1
+        elif isinstance(x, VOpaque) and x.tag.startswith("userint:"):
+            cur = net.index_axis_int(sp, cur, ax, x.tag.split(":", 1)[1])
         else:
             raise Unmodelled(f"tensor index of type {type(x).__name__}")
     return VTensor(cur, base.dtype)
@@ -665,7 +668,10 @@ def function(it, dotted, args, kwargs, fr, node):
         if last == "arange" and len(args) == 1 and isinstance(args[0], VInt):
             return VIndexSeq([(args[0].p, 1, 0)])
         if last == "prod":
-            items = it.iter_concrete(args[0]) if not isinstance(args[0], VSeq) else None
+            try:
+                items = it.iter_concrete(args[0])
+            except Unmodelled:
+                items = None
             if items is not None:
                 out = ONE
                 for x in items:
@@ -782,6 +788,17 @@ def builtin(it, name, args, kwargs, fr, node):
                         res.append(it.truth(x))
             return VBool(any(res) if name == "any" else all(res))
         raise Unmodelled(f"{name} over {type(v).__name__}")
+    if name == "set":
+        items = it.iter_concrete(args[0]) if args else []
+        out = []
+        for x in items:
+            if not isinstance(x, VInt):
+                raise Unmodelled("set of non-integers")
+            if not any(it.facts.compare(x.p, "==", y.p) is True for y in out):
+                if any(it.facts.compare(x.p, "==", y.p) is None for y in out):
+                    raise Unmodelled("set with undecidable element equality")
+                out.append(x)
+        return VList(out)
     if name == "print":
         return VNone()
     if name == "slice":
